@@ -6,6 +6,7 @@ open Datatypes
 open PrimModel
 open Tl1Model
 open ObjRandModel
+open ObjReuseModel
 open Schema_io
 open Xschema_io
 
@@ -26,8 +27,21 @@ let draw_budget = n_of_int 60000
 let budgeted (seed : coq_N) : coq_N -> coq_N =
   fun i -> if BinNat.N.ltb i draw_budget then splitmix seed i else raise Draw_budget
 
+let rec split_bar (toks : string list) (acc : string list) : string list * string list =
+  match toks with
+  | "|" :: rest -> (List.rev acc, rest)
+  | t :: rest -> split_bar rest (t :: acc)
+  | [] -> (List.rev acc, [])
+
 let run toks =
   match toks with
+  (* enc <san> <tid> <name> <boxed> <ps..> | <value> : model writer on a given wire value (as drv_tl1) *)
+  | "enc" :: san :: t :: _name :: boxed :: rest ->
+      let (ps, vt) = split_bar rest [] in
+      let (v, _) = parse_value vt in
+      (match enc1 (san = "1") schema (tid t) (boxed = "0") (List.map n_of_dec ps) v with
+       | Some b -> "ok " ^ hex_of_bytes b
+       | None -> "none")
   (* rand <tid> <name> <seed> <fuel> : FillRandom from the splitmix stream of <seed>, written TL1 boxed *)
   | ["rand"; t; _name; seed; fuel] ->
       (match (try Some (fill_random (fuel_of fuel) schema xs (tid t) [] (budgeted (n_of_dec seed))) with Draw_budget -> None) with
@@ -44,6 +58,33 @@ let run toks =
        | FOk (v, st) -> "ok " ^ value_to_string v ^ " | pos " ^ dec_of_n st.rs_pos ^ " cur " ^ dec_of_n st.rs_cur
        | FFuel -> "fuel"
        | FBad -> "bad")
+  (* hist <tid> <san> <reset fuel> <step>... : one object reused through the history (C09).
+     step = R | 1b:<hex> | 1r:<hex> | anything else (TL2 / JSON steps: no model prediction, printed as -) *)
+  | "hist" :: t :: san :: rf :: steps ->
+      let ty = tid t in
+      let rfuel = nat_of_int (int_of_string rf) in
+      let st = ref OFresh in
+      let wr o = match oenc schema ty false [] o with Some w -> hex_of_bytes w | None -> "writeerr" in
+      let one step =
+        if step = "R" then begin
+          st := oreset rfuel schema ty !st;
+          "R," ^ wr !st
+        end else
+          match String.index_opt step ':' with
+          | None -> "-"
+          | Some i ->
+              let kind = String.sub step 0 i in
+              if kind <> "1b" && kind <> "1r" then "-" else begin
+                let b = bytes_of_hex (String.sub step (i + 1) (String.length step - i - 1)) in
+                match dinto (nat_of_int (64 + 4 * List.length b)) (nat_of_int 6) (san = "1") schema ty (kind = "1r") [] !st b with
+                | Some (Ok (o, rest)) ->
+                    st := o;
+                    "ok_" ^ string_of_int (List.length b - List.length rest) ^ "," ^ wr o
+                | Some Eof -> "eof,-"
+                | Some Reject -> "reject,-"
+                | None -> "fuel,-"
+              end in
+      "ok " ^ String.concat " ; " (List.map one steps)
   | ["xwf"] -> if xwf schema xs then "ok true" else "ok false"
   | "ranked" :: rk -> if ranked schema (List.map (fun s -> nat_of_int (int_of_string s)) rk) then "ok true" else "ok false"
   | ["wf"] -> if wf_schema schema then "ok true" else "ok false"
